@@ -409,6 +409,19 @@ def run(ctx):
                 n_aux += 1
                 OR.check_root(ctx, F, cfg, "C19|use", spec, what="while using a generated request")
         ctx.floor("Debug/Clone/PartialEq roots of the request types", n_aux, 9, cfg=cfg)
+        # ".. dispatched without fault": no path of the two dispatchers ends in a panic (handlers are the authenticator's)
+        from . import sym as S
+        for dpath in ("ctap2::Authenticator::call_ctap2", "ctap1::Authenticator::call_ctap1"):
+            dfn = F.fn(dpath)
+            if not ctx.oblige("C19|use|dispatch|anchor|" + dpath, dfn is not None, "anchor missing: " + dpath, cfg=cfg, nontrivial=False):
+                continue
+            try:
+                dps = S.Sym(F, dfn, inline=lambda path, node: not path.endswith(("::call_ctap2", "::call_ctap1")) and F.fn(path) is not None and (F.fn(path).get("pv") or "user") == "user" and "::Authenticator::" not in path).run()
+            except S.TooManyPaths:
+                dps = None
+            pan = [p for p in (dps or []) if p.done and p.done[0] == "panic"]
+            ctx.oblige("C19|use|dispatch|no-panic|" + dpath, dps is not None and not pan,
+                       "dispatching a generated request can panic in %s: %s when %s" % (dpath, (pan[0].done[1:] if pan else "?"), [S.show_atom(a) for a in pan[0].atoms][-2:] if pan else ""), cfg=cfg, where=dfn["sp"])
         want_helpers = {"arbitrary::arbitrary_byte_array", "arbitrary::arbitrary_bytes", "arbitrary::arbitrary_vec", "arbitrary::arbitrary_str", "arbitrary::arbitrary_option", "arbitrary::arbitrary_key"}
         ctx.oblige("C19|helpers", want_helpers <= helpers, "helper functions of src/arbitrary.rs not reachable from the roots: %s" % sorted(want_helpers - helpers), cfg=cfg, nontrivial=False)
         # who-may-call for the lifetime-unconstrained helper
